@@ -108,6 +108,48 @@ def run(ctx, scratch):
                          'refit after %d earlier fit(s) differs from a freshly constructed estimator' % (len(steps) - 1))
                 if rep == 0 and len(ctx.samples) < 6:
                     ctx.sample(dict(name=name, family=fam, m=spec, opts=opts))
+        # history sweep: contrasting earlier inputs (tiny / disconnected / connected / bipartite) before the target fit
+        for name in names:
+            d = desc[name]
+            if not _is_class(name, desc) or d['seeds'] == 'sources':
+                continue
+            for kind0 in ('tiny', 'disconnected', 'connected', 'bip'):
+                for rep in range(1 if quick else 3):
+                    spec, opts, fam = prepare(rng, name, d, nmax)
+                    a = main.call('registry', 'run', dict(name=name, m=spec, opts=opts), timeout=60)
+                    ctx.traces += 1
+                    if 'ok' not in a:
+                        continue
+                    if kind0 == 'tiny':
+                        spec0 = dict(shape=[3, 3], coo=[[0, 1, 1], [1, 0, 1], [1, 2, 1], [2, 1, 1]], dtype='int', fmt='csr')
+                    elif kind0 == 'disconnected':
+                        k = rng.randint(3, 5)
+                        E = [(i, (i + 1) % k) for i in range(k)] + [(k + i, k + (i + 1) % k) for i in range(k)]
+                        E = sorted(set(E) | {(j, i) for (i, j) in E})
+                        spec0 = dict(shape=[2 * k, 2 * k], coo=[[i, j, 1] for (i, j) in E], dtype='int', fmt='csr')
+                    elif kind0 == 'connected':
+                        spec0, _, _, _ = cases.make_matrix(rng, 'symconn', nmax)
+                    else:
+                        spec0, _, _, _ = cases.make_matrix(rng, 'bip', nmax)
+                    n0 = spec0['shape'][0]
+                    opts0 = {'params': dict(opts.get('params', {}))}
+                    if d['seeds'] in ('weights', 'values'):
+                        opts0['seeds'] = {'all': {'dict': {'0': 1}}}
+                    elif d['seeds'] == 'labels':
+                        opts0['seeds'] = {'all': {'dict': {'0': 0, '1': 1}}}
+                    elif d['seeds'] == 'pos_init':
+                        opts0['pos_init'] = [[rng.uniform(-1, 1), rng.uniform(-1, 1)] for _ in range(n0)]
+                    if name == 'GNNClassifier':
+                        opts0 = cases.gnn_opts(rng, n0)
+                    steps = [dict(m=spec0, opts=opts0), dict(m=spec, opts=dict(opts))]
+                    h = main.call('registry', 'run_seq', dict(name=name, steps=steps), timeout=120)
+                    ctx.traces += 1
+                    ctx.count(name + ':history_' + kind0, (name, kind0, repr(steps)), True)
+                    case = dict(name=name, m=spec, opts=opts, family=fam, earlier=kind0, earlier_m=spec0)
+                    if cases.degenerate(main, name, spec, opts):
+                        ctx.margin_dropped += 1
+                        case['skip'] = ('emb', 'vec', 'mat', 'ivec', 'labels') if base_name(name) in ('HITS', 'NNClassifier', 'NNLinker') else ('emb',)
+                    _cmp(ctx, name, a, h, case, 'refit', 'refit after an earlier fit on a %s input differs from a freshly constructed estimator' % kind0)
     finally:
         for w in workers.values():
             w.close()
